@@ -57,10 +57,11 @@ def save_npz(filename, matrix, compressed=True):
 
     if type(matrix) is COO:
         nodes["coords"] = matrix.coords
-    elif type(matrix) is GCXS:
+    elif isinstance(matrix, GCXS):
         nodes["indices"] = matrix.indices
         nodes["indptr"] = matrix.indptr
-        nodes["compressed_axes"] = matrix.compressed_axes
+        if matrix.compressed_axes is not None:
+            nodes["compressed_axes"] = matrix.compressed_axes
 
     if compressed:
         np.savez_compressed(filename, **nodes)
@@ -100,6 +101,10 @@ def load_npz(filename):
     """
 
     with np.load(filename) as fp:
+        # members are only CRC-checked when read to their end, which a damaged
+        # npy header can prevent: verify the whole archive first
+        if fp.zip.testzip() is not None:
+            raise ValueError(f"The file {filename!s} is corrupted")
         try:
             coords = fp["coords"]
             data = fp["data"]
@@ -119,7 +124,7 @@ def load_npz(filename):
             data = fp["data"]
             indices = fp["indices"]
             indptr = fp["indptr"]
-            comp_axes = fp["compressed_axes"]
+            comp_axes = fp["compressed_axes"] if "compressed_axes" in fp else None
             shape = tuple(fp["shape"])
             fill_value = fp["fill_value"][()]
             return GCXS(
